@@ -22,6 +22,11 @@ theorem gen_assumptions_proc :
     Gen.WasiPath.threadStartExport = "wasi_thread_start" ∧ Gen.WasiPath.spawnMissingExportResult = -1 := by
   decide
 
+/-- the export comparison of the lookup loop is string EQUALITY with "wasi_thread_start"
+    (a prefix / bounded comparison regenerates a different definition and breaks this obligation) -/
+theorem gen_export_match_exact (name : String) :
+    Gen.WasiPath.exportNameMatches name = (name == "wasi_thread_start") := rfl
+
 /-! ### args / environ -/
 
 /-- **args_layout.**  For an argument vector of ANY size and content, a guest memory below 4 GiB
@@ -293,6 +298,44 @@ theorem spawn_missing_export (s : Sys) (h : Reach false s) :
     Gen.WasiPath.spawnMissingExportResult < 0 := by
   have hd := InvD_reach s h
   exact ⟨hd.calls, hd.threads, hd.started, hd.children, hd.next, by decide⟩
+
+/-- **spawn_lookup_exact.**  The thread entry is the function of the FIRST export whose name EQUALS
+    `wasi_thread_start`; look-alikes (longer names with that prefix, shorter ones, other case) are never
+    taken, wherever they stand in the table. -/
+theorem spawn_lookup_exact (exports : ExportTable) :
+    lookupStart exports = (exports.find? (fun e => e.1 == "wasi_thread_start")).map (·.2) := by
+  induction exports with
+  | nil => rfl
+  | cons e rest ih =>
+    obtain ⟨name, f⟩ := e
+    simp only [lookupStart, gen_export_match_exact, List.find?_cons]
+    by_cases h : (name == "wasi_thread_start") = true
+    · simp [h]
+    · simp only [h, if_false]
+      simp only [Bool.not_eq_true] at h
+      simp [h, ih]
+
+/-- no export named exactly `wasi_thread_start` ⇔ the lookup finds nothing -/
+theorem spawn_lookup_none_iff (exports : ExportTable) :
+    lookupStart exports = none ↔ ∀ e ∈ exports, e.1 ≠ "wasi_thread_start" := by
+  rw [spawn_lookup_exact]
+  simp only [Option.map_eq_none_iff, List.find?_eq_none, beq_iff_eq]
+
+/-- **spawn_lookalike_rejected.**  A module WITHOUT an export named exactly `wasi_thread_start` — whatever
+    else it exports, e.g. `wasi_thread_start_hook`, `wasi_thread_start2`, `wasi_thread`, `WASI_THREAD_START` —
+    gets −1 from every thread-spawn call, in every interleaving: no thread, no child instance, no start call. -/
+theorem spawn_lookalike_rejected (exports : ExportTable) (hno : ∀ e ∈ exports, e.1 ≠ "wasi_thread_start")
+    (s : Sys) (h : Reach (lookupStart exports).isSome s) :
+    (∀ (i : Nat) (c : Call), s.calls[i]? = some c → (∃ a, c = Call.init a) ∨ (∃ a, c = Call.done a none)) ∧
+    s.threads = [] ∧ s.started = [] ∧ s.children = 0 := by
+  have hn : lookupStart exports = none := (spawn_lookup_none_iff exports).2 hno
+  rw [hn] at h
+  have := spawn_missing_export s h
+  exact ⟨this.1, this.2.1, this.2.2.1, this.2.2.2.1⟩
+
+example : lookupStart [("wasi_thread_start_hook", 0), ("wasi_thread", 1), ("WASI_THREAD_START", 2)] = none := by decide
+example : lookupStart [("wasi_thread_start2", 0), ("wasi_thread_start", 1), ("wasi_thread_start", 2)] = some 1 := by decide
+example : lookupStart [] = none := rfl
 
 /-- every action the executable scheduler performs is a step of the transition system, so every
     state the driver's simulation visits is `Reach`able -/
